@@ -19,7 +19,7 @@ ID = "C16"
 LEVEL = "exploration"
 TECHNIQUE = "generated multi-instance request histories and interleavings (Hypothesis); differential against a solo replay of each instance's own requests"
 RULE = ("cases = (k instances with timeouts, created one by one or by one /start-instances request, per-instance request lists, merge "
-        "order, clock advances, factory style incl. register_model; a quarter of the shards run every history in its own interpreter); every response "
+        "order, clock advances, factory style incl. register_model and a base-constants dict shared by the factory's bptks, a quarter one lifetime after the other; half of the shards run every history in a freshly forked interpreter state); every response "
         "(status and body) of every instance in the interleaved run must equal the corresponding response of the solo replay. "
         "non-trivial = two sessions are live at once with different settings and the merge order alternates A,B,A at least once; "
         "distinct by case")
